@@ -58,6 +58,10 @@ class C09(Check):
         import pydl.pydlutils.bspline as B
         self.B = B
         self._mp = 0
+        self.brd.per_case = 3
+        self.brd.attach(self.rec, B.bspline, 'fit', every=2)                  # buffer-reuse differential (vlib/brd.py)
+        self.brd.attach(self.rec, B, 'cholesky_band', every=3, own=True)
+        self.brd.attach(self.rec, B, 'cholesky_solve', every=3, own=True)
         self.rec.wrap(B.bspline, 'fit')
         self.rec.wrap(B.bspline, 'maskpoints')
         self._cb = []
